@@ -17,6 +17,19 @@
 #include <mach/mach.h>
 #endif // __APPLE__
 
+#ifdef KPU_KENLM_VERIF
+#include <cstddef>
+namespace util { namespace verif {
+// Scheduling points for the verification harness.  No-ops unless a hook is installed.
+enum SchedOp { kSemInit, kSemWait, kSemPost, kLock, kUnlock, kStore, kLoad, kAdvance };
+typedef void (*SchedHook)(const void *queue, int op, const void *object, std::size_t arg);
+inline SchedHook &SchedHookSlot() { static SchedHook hook = 0; return hook; }
+inline void SchedPoint(const void *queue, int op, const void *object, std::size_t arg = 0) {
+  if (SchedHook hook = SchedHookSlot()) hook(queue, op, object, arg);
+}
+}} // namespaces
+#endif // KPU_KENLM_VERIF
+
 namespace util {
 
 /* OS X Maverick and Boost interprocess were doing "Function not implemented."
@@ -90,9 +103,18 @@ template <class T> class PCQueue : boost::noncopyable {
 
   // Add a value to the queue.
   void Produce(const T &val) {
+#ifdef KPU_KENLM_VERIF
+    verif::SchedPoint(this, verif::kSemWait, &empty_);
+#endif
     WaitSemaphore(empty_);
     {
+#ifdef KPU_KENLM_VERIF
+      verif::SchedPoint(this, verif::kLock, &produce_at_mutex_);
+#endif
       boost::unique_lock<boost::mutex> produce_lock(produce_at_mutex_);
+#ifdef KPU_KENLM_VERIF
+      verif::SchedPoint(this, verif::kStore, &produce_at_);
+#endif
       try {
         *produce_at_ = val;
       }
@@ -100,16 +122,34 @@ template <class T> class PCQueue : boost::noncopyable {
         empty_.post();
         throw;
       }
+#ifdef KPU_KENLM_VERIF
+      verif::SchedPoint(this, verif::kAdvance, &produce_at_);
+#endif
       if (++produce_at_ == end_) produce_at_ = storage_.get();
+#ifdef KPU_KENLM_VERIF
+      verif::SchedPoint(this, verif::kUnlock, &produce_at_mutex_);
+#endif
     }
+#ifdef KPU_KENLM_VERIF
+    verif::SchedPoint(this, verif::kSemPost, &used_);
+#endif
     used_.post();
   }
 
   // Consume a value, assigning it to out.
   T& Consume(T &out) {
+#ifdef KPU_KENLM_VERIF
+    verif::SchedPoint(this, verif::kSemWait, &used_);
+#endif
     WaitSemaphore(used_);
     {
+#ifdef KPU_KENLM_VERIF
+      verif::SchedPoint(this, verif::kLock, &consume_at_mutex_);
+#endif
       boost::unique_lock<boost::mutex> consume_lock(consume_at_mutex_);
+#ifdef KPU_KENLM_VERIF
+      verif::SchedPoint(this, verif::kLoad, &consume_at_);
+#endif
       try {
         out = *consume_at_;
       }
@@ -117,8 +157,17 @@ template <class T> class PCQueue : boost::noncopyable {
         used_.post();
         throw;
       }
+#ifdef KPU_KENLM_VERIF
+      verif::SchedPoint(this, verif::kAdvance, &consume_at_);
+#endif
       if (++consume_at_ == end_) consume_at_ = storage_.get();
+#ifdef KPU_KENLM_VERIF
+      verif::SchedPoint(this, verif::kUnlock, &consume_at_mutex_);
+#endif
     }
+#ifdef KPU_KENLM_VERIF
+    verif::SchedPoint(this, verif::kSemPost, &empty_);
+#endif
     empty_.post();
     return out;
   }
@@ -149,6 +198,15 @@ template <class T> class PCQueue : boost::noncopyable {
   T *consume_at_;
   boost::mutex consume_at_mutex_;
 
+#ifdef KPU_KENLM_VERIF
+  // Declared last, so it is built after the members above: tells the harness the semaphores' initial counts.
+  struct VerifAnnounce {
+    explicit VerifAnnounce(const PCQueue *q) {
+      verif::SchedPoint(q, verif::kSemInit, &q->empty_, q->end_ - q->storage_.get());
+      verif::SchedPoint(q, verif::kSemInit, &q->used_, 0);
+    }
+  } verif_announce_ = VerifAnnounce(this);
+#endif
 };
 
 } // namespace util
